@@ -499,7 +499,7 @@ func init() { register("C16", Rule{"R16e", ruleRootCacheSoundness}) }
 // segments into it (a replacement with non-empty text, separator conversion, unescaping, formatting) re-opens what
 // the check closed: `./sub\..\..\secret` is one harmless segment for the check and three after `\` became `/`.
 func ruleNoRewriteAfterCheck(p *Program, r *Report) {
-	r.Begin("R16f", "no rewriting after the confinement check: between importLocalFile's path parameter and the file read / recorder, the path flows only through operations that cannot introduce separators or `..` segments (trimming, removal, prefixing, Join, Clean, Ext/Dir/Base); any other transformation of the path text (replacement with non-empty text, ToSlash/FromSlash, unescaping, Sprintf …) is a violation", 2)
+	r.Begin("R16f", "no rewriting after the confinement check: between importLocalFile's path parameter and the file read / recorder, the path flows only through operations that cannot introduce separators or `..` segments (trimming, removal, prefixing, Join, Clean, Ext/Dir/Base); any other transformation of the path text (replacement with non-empty text, ToSlash/FromSlash, unescaping, Sprintf …) is a violation, and so is trimming separators off a path that already carries the module root", 2)
 	defer r.End()
 	ilf := p.Func("syntax", "importLocalFile")
 	fv := p.Func("syntax", "fileValue")
@@ -526,7 +526,27 @@ func ruleNoRewriteAfterCheck(p *Program, r *Report) {
 		switch pp {
 		case "strings":
 			switch {
-			case strings.HasPrefix(nm, "Trim"), strings.HasPrefix(nm, "Has"), strings.HasPrefix(nm, "Contains"), strings.HasPrefix(nm, "Index"), nm == "Count", nm == "EqualFold", nm == "Split", nm == "Fields":
+			case strings.HasPrefix(nm, "Trim"):
+				// trimming separators off a path that already carries the module root can fuse the root with what
+				// follows (`<root>/` → `<root>` + `.arrai` names a sibling of the root directory)
+				cutsSep := false
+				for _, a := range c.Call.Args[1:] {
+					if k, ok := a.(*ssa.Const); ok && k.Value != nil && k.Value.Kind() == constant.String && strings.ContainsAny(constant.StringVal(k.Value), "/\\") {
+						cutsSep = true
+					}
+				}
+				if cutsSep && len(c.Call.Args) > 0 && DependsOn(c.Call.Args[0], func(y ssa.Value) bool {
+					cc, ok := y.(*ssa.Call)
+					if !ok {
+						return false
+					}
+					g2 := cc.Call.StaticCallee()
+					return g2 != nil && InRepo(g2) && strings.Contains(strings.ToLower(g2.Name()), "root")
+				}) {
+					return false
+				}
+				return true
+			case strings.HasPrefix(nm, "Has"), strings.HasPrefix(nm, "Contains"), strings.HasPrefix(nm, "Index"), nm == "Count", nm == "EqualFold", nm == "Split", nm == "Fields":
 				return true
 			case nm == "ReplaceAll" || nm == "Replace":
 				// removal only
